@@ -11,25 +11,35 @@ Import ListNotations.
 (* The unguarded statement is FALSE of the faithful model (known finding F15a): the docs' own example
    @kopf.on.create(field='spec.f', value=kopf.ABSENT) matches an object created WITH spec.f ... *)
 Theorem C15_match_iff_spec_refuted :
-  exists h c, wf_decl h /\ body_ok c /\ class_agree h c /\ essence_ok h c /\ cbs_blind h c /\
+  exists h c, wf_decl h /\ body_ok c /\ class_agree h c /\ essence_ok h c /\
               matches h c = Ok true /\ ~ Matches h c.
 Proof. exact match_iff_spec_refuted. Qed.
 Print Assumptions C15_match_iff_spec_refuted.
 
-(* ... and (F15b) a field value callback sees a private marker, not None, for an absent field:
-   value=lambda v, **_: v is None on an object without the field: documented to hold, does not *)
-Theorem C15_match_iff_spec_refuted_callback :
-  exists h c, wf_decl h /\ body_ok c /\ class_agree h c /\ essence_ok h c /\ old_silent h c /\
-              matches h c = Ok false /\ Matches h c.
-Proof. exact match_iff_spec_refuted_callback. Qed.
-Print Assumptions C15_match_iff_spec_refuted_callback.
+(* F15b (field value callbacks got a private marker instead of None for an absent field) was repaired in kopf by
+   commit b981eb5; the former C15_match_iff_spec_refuted_callback is gone and the callback guard is dropped below.
+   Regression: value=lambda v, **_: v is None on an object WITHOUT the field matches, as documented (and an absent
+   field and a null one are indistinguishable to a callback; `v is not None` / bool(v) do not hold for an absent field;
+   old=(v is None), new=(v == 0) on an added field 0 matches). *)
+Example C15_callback_absent_gets_none :
+  matches ex_event_isnone (ex_watching None) = Ok true /\ Matches ex_event_isnone (ex_watching None) /\
+  matches ex_event_isnone (ex_watching (Some JNull)) = Ok true /\
+  matches ex_event_isnone (ex_watching (Some (JNum 0))) = Ok false /\
+  matches (decorate DEvent "e" 0 ex_sel [] [] None (Some ["spec"; "f"]%string) (CCb cb_not_none) CNone CNone)
+          (ex_watching None) = Ok false /\
+  matches (decorate DEvent "e" 0 ex_sel [] [] None (Some ["spec"; "f"]%string) (CCb cb_truthy) CNone CNone)
+          (ex_watching None) = Ok false /\
+  matches (decorate DUpdate "u" 0 ex_sel [] [] None (Some ["spec"; "f"]%string) CNone (CCb cb_is_none) (CCb (cb_eq (JNum 0))))
+          (ex_upd None (Some (JNum 0)) 0) = Ok true.
+Proof. exact callback_absent_regression. Qed.
+Print Assumptions C15_callback_absent_gets_none.
 
 (* The strongest true statement: for every declaration the decorators can produce, every well-formed
-   body, every callback that cannot tell the marker from None, and whenever the OLD value does not satisfy
+   body, every callback (arbitrary total functions), and whenever the OLD value does not satisfy
    the value criterion of a create/resume/delete handler unless the current one does:
    match() = True  <->  all declared criteria hold as documented.  (No exception is raised: Ok.) *)
 Theorem C15_match_iff_spec_partial : forall h c,
-  wf_decl h -> body_ok c -> class_agree h c -> essence_ok h c -> cbs_blind h c -> old_silent h c ->
+  wf_decl h -> body_ok c -> class_agree h c -> essence_ok h c -> old_silent h c ->
   (matches h c = Ok true <-> Matches h c).
 Proof. exact match_iff_spec_partial. Qed.
 Print Assumptions C15_match_iff_spec_partial.
@@ -54,7 +64,7 @@ Print Assumptions C15_match_total.
 (* value= holds on the old OR the new value; old=/new= each on its side; and the field differs
    (changed, added or removed; an unchanged field with a changed sibling does not count) *)
 Theorem C15_update_field_semantics : forall h c p,
-  body_ok c -> h_field h = Some p -> updating h c -> cbs_blind h c ->
+  body_ok c -> h_field h = Some p -> updating h c ->
   let old := resolve_opt (c_old c) p in
   let new := resolve_opt (c_new c) p in
   (matches h c = Ok true <->
@@ -84,7 +94,7 @@ Print Assumptions C15_update_removed_added_unchanged.
 (* ---- all other handlers: "the current ---and only--- state" ------------------------------- *)
 (* event / daemon / timer / index: holds *)
 Theorem C15_non_update_current_only : forall h c p,
-  body_ok c -> is_changing c = false -> h_field h = Some p -> cb_blind c (h_value h) ->
+  body_ok c -> is_changing c = false -> h_field h = Some p ->
   (matches h c = Ok true <->
      matches_resource h (c_resource c) = true /\ meta_b c (h_labels h) "labels" = true /\
      meta_b c (h_annotations h) "annotations" = true /\ WhenHolds h c /\
@@ -102,7 +112,7 @@ Print Assumptions C15_non_update_current_only_refuted.
 (* ... what does hold for them: the criterion on the new OR the old state *)
 Theorem C15_non_update_current_only_partial : forall h c p,
   wf_decl h -> body_ok c -> h_is_changing h = true -> is_changing c = true -> h_needs_change h = false ->
-  h_field h = Some p -> cb_blind c (h_value h) ->
+  h_field h = Some p ->
   (matches h c = Ok true <->
      matches_resource h (c_resource c) = true /\ meta_b c (h_labels h) "labels" = true /\
      meta_b c (h_annotations h) "annotations" = true /\ WhenHolds h c /\
@@ -171,7 +181,7 @@ Print Assumptions C15_stealth_static.
    with the equivalence exercised on both sides *)
 Example C15_guards_satisfiable : forall new,
   wf_decl ex_guarded /\ body_ok (ex_guarded_cause new) /\ class_agree ex_guarded (ex_guarded_cause new) /\
-  essence_ok ex_guarded (ex_guarded_cause new) /\ cbs_blind ex_guarded (ex_guarded_cause new) /\
+  essence_ok ex_guarded (ex_guarded_cause new) /\
   old_silent ex_guarded (ex_guarded_cause new).
 Proof. exact ex_guards. Qed.
 Print Assumptions C15_guards_satisfiable.
